@@ -14,7 +14,9 @@
 From Coq Require Import ZArith QArith List Bool.
 From Verif.Lib Require Import QRound PyNum.
 From Verif.Model Require Import Result Credit Pipeline PipelineAgree.
-From Verif.Proofs Require Import Credit Pipeline PipelineWF PipelineShape PipelineFuel PipelineEx.
+From Verif.Gen Require PipelineLits.
+From Verif.Bridge Require Import Pipeline.
+From Verif.Proofs Require Import Credit Pipeline PipelineWF PipelineShape PipelineFuel PipelineEx PipelineGen.
 Import ListNotations.
 Open Scope Q_scope.
 
@@ -43,7 +45,7 @@ Print Assumptions C01_ok_partial_iff_otherwise.
          call fuel OR cfg g a x attempt log = Ret r -> wf_edx S r.
    It is FALSE of the unchanged code -- see C01_call_refuted below (a partial-credit comparer verdict scaled by an
    answer worth grade_decimal = 0 comes back as ok='partial' with grade 0).  What is proved is the statement with the
-   matching side condition: consolidate_results re-derives ok from the scaled grade (o_recompute: the repaired code; the
+   matching side condition: raw_check re-derives ok from the scaled grade (o_recompute: the repaired code; the
    harness reads this off the source on every run), or no alternative anywhere in the answer tree is worth 0
    (Zc c -> 0 < c), or no comparer returns partial credit (lout_crisp).  Nothing else is missing: every grader tree,
    every answer tree, every input, every attempt, every debug log, every leaf / assignment / best-list oracle, every
@@ -59,7 +61,7 @@ Theorem C01_call_wf_partial : forall (S : okv -> Prop) (Zc : Q -> Prop) (OR : or
 Proof. exact call_wf. Qed.
 Print Assumptions C01_call_wf_partial.
 
-(* the full-strength statement, for the version of consolidate_results that re-derives ok (the proposed repair) *)
+(* the full-strength statement, for the version of FormulaGrader.raw_check that re-derives ok after scaling (the repair) *)
 Theorem C01_call_wf_repaired : forall (S : okv -> Prop) (OR : oracles),
   (forall p, lout_ok S (o_leaf OR p)) -> o_recompute OR = true ->
   forall fuel cfg g a x attempt log r,
@@ -173,7 +175,7 @@ Theorem C01_formula_leaf_wf_partial : forall S Zc rc f a l, alt_okp S Zc a -> Fo
 Proof. exact formula_leaf_wf. Qed.
 Print Assumptions C01_formula_leaf_wf_partial.
 
-Theorem C01_sum_leaf_wf : forall S rc f l, Forall cfn_unit l -> wf_ires S (sum_response rc f l).
+Theorem C01_sum_leaf_wf : forall S f l, Forall cfn_unit l -> wf_ires S (sum_response f l).
 Proof. exact sum_leaf_wf. Qed.
 Print Assumptions C01_sum_leaf_wf.
 
@@ -227,6 +229,49 @@ Proof. exact apply_credit_wf. Qed.
 Print Assumptions C01_attempt_scaling_recomputes_ok.
 
 (* =================================================================================================
+   5b. tie (A): statements about definitions REGENERATED from /repo on every run (translate/pipeline.py)
+   ================================================================================================= *)
+(* every result-dictionary literal with constant ok and grade_decimal in standardize_cfn_return, padded_check,
+   StringGrader.construct_message / check_response and MatrixGrader.check_response is self-consistent w.r.t. the
+   regenerated grade_decimal_to_ok *)
+Theorem C01_result_literals_consistent : Forall lit_ok Gen.PipelineLits.gen_all_literals.
+Proof. exact gen_literals_consistent. Qed.
+Print Assumptions C01_result_literals_consistent.
+
+(* the regenerated grade_decimal_to_ok is the model's *)
+Theorem C01_grade_decimal_to_ok_bridge : forall g, Gen.PipelineLits.gen_grade_to_ok g = grade_to_ok g.
+Proof. exact grade_to_ok_bridge. Qed.
+Print Assumptions C01_grade_decimal_to_ok_bridge.
+
+(* the regenerated literals are the constants the model uses *)
+Theorem C01_standardize_cfn_return_bridge :
+  Gen.PipelineLits.gen_lits_standardize_cfn_return
+  = [lit_of (standardize CfTrue); lit_of (standardize CfPartial); lit_of (standardize CfFalse); Gen.PipelineLits.LInferred].
+Proof. exact standardize_bridge. Qed.
+Print Assumptions C01_standardize_cfn_return_bridge.
+
+Theorem C01_padded_check_bridge : Gen.PipelineLits.gen_lits_padded_check = [lit_of (i_e auto_fail)].
+Proof. exact padded_check_bridge. Qed.
+Print Assumptions C01_padded_check_bridge.
+
+Theorem C01_string_literals_bridge : forall c m o,
+  Gen.PipelineLits.gen_lits_string_check_response = [lit_of (i_e (string_response c m o SReject)); Gen.PipelineLits.LCopy]
+  /\ i_e (string_response c m o SAccept) = mkEntry o c m.
+Proof. exact string_check_response_bridge. Qed.
+Print Assumptions C01_string_literals_bridge.
+
+Theorem C01_construct_message_bridge : forall m,
+  Gen.PipelineLits.gen_lits_construct_message = [lit_of (i_e (string_response 1 [] OkTrue (SInvalid m)))].
+Proof. exact construct_message_bridge. Qed.
+Print Assumptions C01_construct_message_bridge.
+
+Theorem C01_matrix_literals_bridge : forall c k m r,
+  Gen.PipelineLits.gen_lits_matrix_check_response = repeat (lit_of (i_e (zero_res []))) 5
+  /\ (matrix_err c k m = Ret r -> lit_of (i_e r) = lit_of (i_e (zero_res []))).
+Proof. exact matrix_check_response_bridge. Qed.
+Print Assumptions C01_matrix_literals_bridge.
+
+(* =================================================================================================
    6. REFUTED on the unchanged code (kept until /repo is repaired; the harness finds the same witness on every run)
    ================================================================================================= *)
 (* FormulaGrader.raw_check scales a comparer's partial-credit result by the answer's grade_decimal and leaves ok alone:
@@ -250,7 +295,7 @@ Example C01_call_refuted :
 Proof. exact call_refuted. Qed.
 Print Assumptions C01_call_refuted.
 
-(* the same call under the repaired consolidate_results returns ok=False *)
+(* the same call under the repaired raw_check returns ok=False *)
 Example C01_ex_repaired_call :
   call 3 (table_oracles_v true [([0%nat], LCfn [CfPartial])] [] []) refuting_cfg (GItem (KFormula 0) []) (AItem [zero_alt])
        (IStr []) None [] = Ret (ESingle (mkEntry OkFalse ((1 # 2) * 0) [])).
